@@ -27,6 +27,7 @@
  *   "<k> R <status> <dump>", "<k> T <status> <hex of the last frame>", "<k> V <status> <dump>" (t)
  *   "<k> R <status> <hex>", "<k> V <status> <dump>"       (c)
  *   "<k> R <status> <enclen> <hex|~>"             (n, s)
+ *   "<k> H hang"                                  the call did not return within 2 s
  *   "<k> L <blocks>"                              the case ended with <blocks> more live
  *                                                 allocations than it started with (leak)
  * The input block is copied into a heap allocation of exactly its size so that ASan sees
@@ -533,10 +534,33 @@ static void run_expand(long k, int is_name, long enc, long alen, int want, const
 
 static void run_case1(long k, char *line);
 
+#include <setjmp.h>
+#include <signal.h>
+static sigjmp_buf hang_env;
+static int        hangs;
+static void on_alarm(int sig)
+{
+  (void)sig;
+  siglongjmp(hang_env, 1);
+}
+
 static void run_case(long k, char *line)
 {
   long before = live_blocks;
+  /* a case that does not return within 2 s (e.g. a pointer loop) is abandoned: "<k> H hang";
+   * after 20 of them the driver gives up (the verdict is settled) */
+  if (sigsetjmp(hang_env, 1) != 0) {
+    printf("\n%ld H hang\n", k);
+    if (++hangs >= 20) {
+      printf("%ld H giving-up\n", k);
+      fflush(stdout);
+      _exit(0);
+    }
+    return;
+  }
+  alarm(2);
   run_case1(k, line);
+  alarm(0);
   if (live_blocks != before) {
     printf("%ld L %ld\n", k, live_blocks - before);
     leaks_reported = 1;
@@ -574,6 +598,7 @@ int main(int argc, char **argv)
 {
   int rc;
   ares_library_init_mem(ARES_LIB_INIT_ALL, cnt_malloc, cnt_free, cnt_realloc);
+  signal(SIGALRM, on_alarm);
   rc = drv_main(argc, argv, run_case);
   ares_library_cleanup();
   if (leaks_reported) {
